@@ -422,6 +422,9 @@ OnDeref(m, e, i) ==
                  IN Check(m2, e.o \in Close(m2, m2.ar[a].adopted), FALSE, "C06", "r2", i, e.o)
           ELSE Flag(Hit(m1, "C05.r6"), "C05", "r6", i, e.o)                            \* upgraded pointer not usable
 
+\* C03 r3: every pointer obtained during a callback is still valid when the callback ends
+OnHeld(m, e, i) == Check(m, TRUE, e.ok, "C03", "r3", i, e.o)
+
 \* a query of a weak pointer held by the root or by an accessible object
 OnWeak(m, e, i) ==
   LET a == ArenaOf(e)  t == e.t
@@ -520,6 +523,7 @@ Step(m0, e, i) ==
     [] ev = "release"    -> OnRelease(m, e, i)
     [] ev = "deref"      -> OnDeref(m, e, i)
     [] ev = "weak"       -> OnWeak(m, e, i)
+    [] ev = "held"       -> OnHeld(m, e, i)
     [] ev = "is_dead"    -> OnIsDead(m, e, i)
     [] ev = "resurrect"  -> OnResurrect(m, e, i)
     [] ev = "c02_check"  -> OnC02Check(m, e, i)
